@@ -15,10 +15,13 @@ Inductive tspec :=
 | Alt (sid : nat) (branches : list tspec)           (* Coalesce: all fail -> its own CoalesceError *)
 | OrS (sid : nat) (branches : list tspec)           (* Or: the last branch's error propagates *)
 | Switch (sid : nat) (cases : list (tspec * tspec))
-| Guard (sid : nat) (ok : bool) (kid : tspec).      (* Check(kid, ...): the sub-spec runs in a scope of its own, then the guard passes
+| Guard (sid : nat) (ok : bool) (kid : tspec)
+| AltD (sid : nat) (branches : list tspec).      (* Guard: Check(kid, ...): the sub-spec runs in a scope of its own, then the guard passes
                                                         the target on or raises its OWN error — a spec that fails after its children succeeded *)
 
-Definition sid_of s := match s with Leaf n _ | SkipLeaf n | Nest n _ | Chain n _ | Alt n _ | OrS n _ | Switch n _ | Guard n _ _ => n end.
+(* AltD: Coalesce(..., default_factory=f) — when every alternative fails or is skipped the factory's value is the result, and nothing
+   is evaluated after the last (failed) alternative: a spec that recovers *)
+Definition sid_of s := match s with Leaf n _ | SkipLeaf n | Nest n _ | Chain n _ | Alt n _ | OrS n _ | Switch n _ | Guard n _ _ | AltD n _ => n end.
 
 Record frame := mkF { f_spec : nat; f_target : nat; f_up : nat; f_last : option nat;
                       f_cerrs : list nat; f_err : option nat; f_nopy : bool }.
@@ -90,6 +93,9 @@ Fixpoint glom_ (fuel : nat) (st : store) (parent t : nat) (s : tspec) {struct fu
     | Guard n ok kid => match glom_ fuel st f t kid with
                         | (st, Ret _) => if ok then (st, Ret t) else (st, Exc (6000 + n))
                         | (st, Exc e) => (st, Exc e) end
+    | AltD n bs => match alt_loop (glom_ fuel) 0 st f t bs with
+                   | (st, Exc _) => (st, Ret (3000 + n))
+                   | (st, Ret v) => (st, Ret v) end
     end in
   match r with
   | Ret v => (st, Ret v)
@@ -110,7 +116,10 @@ Fixpoint descend (fuel : nat) (st : store) (cur : nat) : list entry :=
   | Some child =>
       let branches := match f_cerrs fr with [c] => if Nat.eqb c child then [] else [c] | l => l end in
       let en := mkE cur (f_spec fr) (f_target fr) (f_err fr) branches in
-      if existsb (Nat.eqb child) branches then [en] else en :: descend fuel st child
+      if existsb (Nat.eqb child) branches then [en]
+      else match f_err (get st child) with
+           | None => [en]                 (* the last child did not fail: whatever failed below it was recovered from *)
+           | Some _ => en :: descend fuel st child end
   end end.
 Definition oeq (a b : option nat) := match a, b with Some x, Some y => Nat.eqb x y | None, None => true | _, _ => false end.
 Fixpoint push_down (l : list entry) : list entry :=
@@ -135,7 +144,8 @@ Fixpoint tdepth (s : tspec) : nat :=
   | Leaf _ _ | SkipLeaf _ => 0
   | Nest _ l | Chain _ l | Alt _ l | OrS _ l => S (fold_right (fun x acc => Nat.max (tdepth x) acc) 0 l)
   | Switch _ cs => S (fold_right (fun kv acc => let '(k, v) := kv in Nat.max (Nat.max (tdepth k) (tdepth v)) acc) 0 cs)
-  | Guard _ _ k => S (tdepth k) end.
+  | Guard _ _ k => S (tdepth k)
+  | AltD _ l => S (fold_right (fun x acc => Nat.max (tdepth x) acc) 0 l) end.
 
 Definition root_store : store := [dummy].
 Definition root_target : nat := 7.
